@@ -523,6 +523,18 @@ func (env *SpecEnv) bin(e *SExpr, hint types.Type) Val {
 	if sa == sStr && op == "+" {
 		return Val{T: a.T, S: app("str.++", a.S, b.S)}
 	}
+	if sa == sStr && cmp {
+		switch op {
+		case "<":
+			return Val{T: tBool, S: app("str.<", a.S, b.S)}
+		case "<=":
+			return Val{T: tBool, S: app("str.<=", a.S, b.S)}
+		case ">":
+			return Val{T: tBool, S: app("str.<", b.S, a.S)}
+		case ">=":
+			return Val{T: tBool, S: app("str.<=", b.S, a.S)}
+		}
+	}
 	w, signed, ok := intInfo(a.T)
 	if !ok {
 		env.fail(e, "operator %s on %s", op, a.T)
@@ -706,6 +718,9 @@ func (env *SpecEnv) call(e *SExpr, hint types.Type) Val {
 			v := env.eval(a, nil)
 			sorts = append(sorts, env.sortOf(v))
 			terms = append(terms, v.S)
+		}
+		if fn := vc.P.fns[fname]; fn != nil && fn.Signature.Variadic() {
+			fname += fmt.Sprintf("/%d", len(sorts))
 		}
 		f := vc.declareFun("pure:"+fname, sorts, vc.sortOf(rt))
 		return Val{T: rt, S: app(f, terms...)}
